@@ -269,6 +269,68 @@ func runAlias(line []byte, rec *recorder) {
 	for _, hd := range handles {
 		events = append(events, M{"ev": "chk", "h": hd.h, "dg": jsonDigest(hd.val), "when": "end"})
 	}
+	// instances used in turn, each rewound once: every instance delivers what it delivers when it is used alone in the same way
+	{
+		plan := make([]int, n)
+		for i := range plan {
+			plan[i] = r.intn(8)
+		}
+		seqOf := func(d *astits.DemuxerData, err error) string {
+			if err != nil {
+				return "err:" + errClass(err)
+			}
+			return "d:" + jsonDigest(d)
+		}
+		for i := 0; i < n; i++ { // alone
+			d := astits.NewDemuxer(context.Background(), bytes.NewReader(streams[i]))
+			for c := 0; c < plan[i]; c++ {
+				d.NextData()
+			}
+			d.Rewind()
+			seq := []string{}
+			for c := 0; c < len(streams[i])/188+20; c++ {
+				x, err := d.NextData()
+				seq = append(seq, seqOf(x, err))
+				if err == astits.ErrNoMorePackets {
+					break
+				}
+			}
+			events = append(events, M{"ev": "first", "inst": 2000 + i, "phase": 0, "seq": seq})
+		}
+		ds := make([]*astits.Demuxer, n)
+		seqs := make([][]string, n)
+		fin := make([]bool, n)
+		for i := range ds {
+			ds[i] = astits.NewDemuxer(context.Background(), bytes.NewReader(streams[i]))
+		}
+		for c := 0; c < 8; c++ {
+			for i := range ds {
+				if c < plan[i] {
+					ds[i].NextData()
+				}
+			}
+		}
+		for i := range ds {
+			ds[i].Rewind()
+		}
+		for left := n; left > 0; {
+			for i := range ds {
+				if fin[i] {
+					continue
+				}
+				x, err := ds[i].NextData()
+				seqs[i] = append(seqs[i], seqOf(x, err))
+				if err == astits.ErrNoMorePackets || len(seqs[i]) > len(streams[i])/188+20 {
+					fin[i] = true
+					left--
+				}
+			}
+		}
+		for i := range ds {
+			events = append(events, M{"ev": "again", "inst": 2000 + i, "phase": 1, "seq": seqs[i]})
+		}
+		thePoolLog.take()
+	}
 	probe(1)
 	for _, sz := range []int{192, 204, 189} { // other framings detected by other instances in between
 		d2 := astits.NewDemuxer(context.Background(), bytes.NewReader(reframe(streams[0], sz, r)))
